@@ -19,7 +19,10 @@ func (ir *IntrospectionResolver) ResolveIntrospectionFields(selectionSet ast.Sel
 	for _, f := range common.SelectionSetToFields(selectionSet, nil) {
 		switch f.Name {
 		case "__type":
-			name := f.Arguments.ForName("name").Value.Raw
+			var name string
+			if v, err := f.Arguments.ForName("name").Value.Value(ir.Variables); err == nil {
+				name, _ = v.(string)
+			}
 			introspectionResult[f.Alias] = ir.resolveType(schema, &ast.Type{NamedType: name}, f.SelectionSet)
 			isIntrospection = true
 		case "__schema":
@@ -120,6 +123,10 @@ func (ir *IntrospectionResolver) resolveType(schema *ast.Schema, typ *ast.Type, 
 		case "name":
 			result[f.Alias] = namedType.Name
 		case "fields":
+			if namedType.Kind != ast.Object && namedType.Kind != ast.Interface {
+				result[f.Alias] = nil
+				continue
+			}
 			includeDeprecated := false
 			if deprecatedArg := f.Arguments.ForName("includeDeprecated"); deprecatedArg != nil {
 				v, err := deprecatedArg.Value.Value(ir.Variables)
@@ -144,22 +151,33 @@ func (ir *IntrospectionResolver) resolveType(schema *ast.Schema, typ *ast.Type, 
 		case "description":
 			result[f.Alias] = namedType.Description
 		case "interfaces":
+			if namedType.Kind != ast.Object && namedType.Kind != ast.Interface {
+				result[f.Alias] = nil
+				continue
+			}
 			interfaces := []map[string]interface{}{}
 			for _, i := range namedType.Interfaces {
 				interfaces = append(interfaces, ir.resolveType(schema, &ast.Type{NamedType: i}, f.SelectionSet))
 			}
 			result[f.Alias] = interfaces
 		case "possibleTypes":
-			if len(namedType.Types) > 0 {
-				types := []map[string]interface{}{}
-				for _, t := range namedType.Types {
-					types = append(types, ir.resolveType(schema, &ast.Type{NamedType: t}, f.SelectionSet))
-				}
-				result[f.Alias] = types
-			} else {
+			if namedType.Kind != ast.Interface && namedType.Kind != ast.Union {
 				result[f.Alias] = nil
+				continue
 			}
+			types := []map[string]interface{}{}
+			for _, t := range schema.PossibleTypes[namedType.Name] {
+				if t.Kind != ast.Object {
+					continue
+				}
+				types = append(types, ir.resolveType(schema, &ast.Type{NamedType: t.Name}, f.SelectionSet))
+			}
+			result[f.Alias] = types
 		case "enumValues":
+			if namedType.Kind != ast.Enum {
+				result[f.Alias] = nil
+				continue
+			}
 			includeDeprecated := false
 			if deprecatedArg := f.Arguments.ForName("includeDeprecated"); deprecatedArg != nil {
 				v, err := deprecatedArg.Value.Value(ir.Variables)
@@ -179,11 +197,19 @@ func (ir *IntrospectionResolver) resolveType(schema *ast.Schema, typ *ast.Type, 
 			}
 			result[f.Alias] = enums
 		case "inputFields":
+			if namedType.Kind != ast.InputObject {
+				result[f.Alias] = nil
+				continue
+			}
 			inputFields := []map[string]interface{}{}
 			for _, fi := range namedType.Fields {
-				// call resolveField instead of resolveInputValue because it has
-				// the right type and is a superset of it
-				inputFields = append(inputFields, ir.resolveField(schema, fi, f.SelectionSet))
+				inputFields = append(inputFields, ir.resolveInputValue(schema, &ast.ArgumentDefinition{
+					Name:         fi.Name,
+					Description:  fi.Description,
+					Type:         fi.Type,
+					DefaultValue: fi.DefaultValue,
+					Directives:   fi.Directives,
+				}, f.SelectionSet))
 			}
 			result[f.Alias] = inputFields
 		default:
